@@ -145,7 +145,10 @@ def build_df(ds, rows, layout, rng=None):
     if layout.get("row_labels") and not (layout["where"] == "index" and idx_cols):
         # the rows keep labels of their own (cut out of a longer table, numbered from 1): not 0..n-1, not years
         n_ = len(df)
-        df.index = list(range(1, n_ + 1)) if layout["row_labels"] == "from1" else list(range(7, 7 + 3 * n_, 3))
+        rl = layout["row_labels"]
+        # "pairs" / "same": labels that repeat (a table put together from pieces that each kept their own numbering)
+        df.index = (list(range(1, n_ + 1)) if rl == "from1" else [(i + 1) // 2 for i in range(n_)] if rl == "pairs"
+                    else [5] * n_ if rl == "same" else list(range(7, 7 + 3 * n_, 3)))
     if layout["where"] == "index" and idx_cols:
         df = df.set_index(idx_cols)
         if layout["header"] == "items":
